@@ -5,6 +5,7 @@ import Nv.Gen.C14
 oracle_c14 — line protocol (one executor at a time; every op is followed by the quiescent closure):
   `new <line|mline|runner|runner-call|runner-delegate|runner-proc|pchan> <lanes> <cap>`  → `ok`   (lanes > 1 only for mline)
   `call <id> <hash>`      id = number of calls so far; submit with a fresh cancellable context
+  `recall <id> <old>`     like `call <id> <hash of old>`; the caller re-uses (and re-fills) the object it passed for call old
   `fin <id> <ok|err> <v>` the running callee of call id returns                (`not-running` otherwise)
   `cancel <id>`           cancel the context of call id
   `stop`, `run` (`Run()`; `new` does NOT start the consumers)
@@ -103,6 +104,17 @@ def stepLive (st : St) (line : String) : St × String :=
          let r := applyAll (x :: xs) (fun _ => [.submit (BitVec.ofInt 64 h) true, .submit (BitVec.ofInt 64 h) false]) "-"
          (some r.1, r.2)
        else (st, "bad-op")
+     | _, _, _ => (st, "bad-op"))
+  | ["recall", id, old] =>   -- the caller re-uses the object it passed for call `old` (same hash) for a new call
+    (match st, natOf id, natOf old with
+     | some (x :: xs), some id, some old =>
+       (match (x.hashes.find? (fun p => p.1 == old)).map (·.2) with
+        | some h =>
+          if id == x.next then
+            let r := applyAll (x :: xs) (fun _ => [.submit h true, .submit h false]) "-"
+            (some r.1, r.2)
+          else (st, "bad-op")
+        | none => (st, "bad-op"))
      | _, _, _ => (st, "bad-op"))
   | ["fin", id, kind, v] =>
     (match st, natOf id, natOf v with
